@@ -65,8 +65,37 @@ T["rad_percent_user"] = doc(f'<defs><radialGradient id="g" gradientUnits="userSp
 T["rad_href_linear_template_stops"] = doc(f'<defs><linearGradient id="t">{STOPS}</linearGradient><radialGradient id="g" xlink:href="#t" cx="{{gx1}}" cy="{{gy1}}" r="{{r1}}"/></defs><g transform="translate({{tx}} {{ty}})">{rect()}</g>')
 
 
+# fully symbolic 6-entry matrices on both the gradient and the shape make the polynomial queries
+# slow (10-20 min per template): thorough tier only; quick uses the same structures with a
+# concrete linear part and symbolic translations
+HEAVY = ("lin_user_gt_matrix", "rad_defaults_matrix", "lin_obb_defaults_matrix")
+THOROUGH = {k: T.pop(k) for k in HEAVY}
+T["lin_user_gt_matrix_light"] = doc(f'<defs><linearGradient id="g" gradientUnits="userSpaceOnUse" x1="{{gx1}}" y1="{{gy1}}" x2="{{gx2}}" y2="{{gy2}}" gradientTransform="matrix(2 1 -1 3 {{ne}} {{nf}})">{STOPS}</linearGradient></defs><g transform="scale({{s1}} {{s2}})">{rect()}</g>')
+T["rad_defaults_matrix_light"] = doc(f'<defs><radialGradient id="g">{STOPS}</radialGradient></defs>' + rect(extra=' transform="matrix(2 1 -1 3 {me} {mf})"'))
+T["lin_obb_defaults_matrix_light"] = doc(f'<defs><linearGradient id="g">{STOPS}</linearGradient></defs>' + rect(extra=' transform="matrix(0 2 -3 0 {me} {mf})"'))
+T["lin_obb_rotate"] = doc(f'<defs><linearGradient id="g" x1="{{gx1}}" y1="{{gy1}}" x2="{{gx2}}" y2="{{gy2}}">{STOPS}</linearGradient></defs><g transform="rotate({{a1}})">{rect()}</g>')
+
+
+T["lin_percent_user_nonsquare_viewbox"] = (
+    '<svg xmlns="http://www.w3.org/2000/svg" xmlns:xlink="http://www.w3.org/1999/xlink" viewBox="0 0 200 80">'
+    f'<defs><linearGradient id="g" gradientUnits="userSpaceOnUse" x1="{{gx1}}%" y1="{{gy1}}%" x2="{{gx2}}%" y2="{{gy2}}%">{STOPS}</linearGradient></defs>'
+    f'<g transform="translate({{tx}} {{ty}})">{rect()}</g></svg>'
+)
+T["rad_percent_user_nonsquare_viewbox"] = (
+    '<svg xmlns="http://www.w3.org/2000/svg" xmlns:xlink="http://www.w3.org/1999/xlink" viewBox="10 20 200 80">'
+    f'<defs><radialGradient id="g" gradientUnits="userSpaceOnUse" cx="{{gx1}}%" cy="{{gy1}}%" r="{{r1}}%" fx="{{gx2}}%" fy="{{gy2}}%">{STOPS}</radialGradient></defs>'
+    f'<g transform="translate({{tx}} {{ty}})">{rect()}</g></svg>'
+)
+for _k in ("lin_obb_rotate", "rad_defaults_matrix_light"):
+    THOROUGH[_k] = T.pop(_k)
+T["rad_defaults_scale_matrix"] = doc(f'<defs><radialGradient id="g">{STOPS}</radialGradient></defs>' + rect(extra=' transform="matrix(2 0 0 3 {me} {mf})"'))
+
+
 def templates(tier):
-    return dict(T)
+    t = dict(T)
+    if tier != "quick":
+        t.update(THOROUGH)
+    return t
 
 
 # ------------------------------------------------------------------ gradient spec
@@ -175,12 +204,17 @@ def make_harness(template):
         sroot, oroot = pipeline.parse_xml(src), pipeline.parse_xml(out)
         s_by_id = {e.get("id"): e for e in sroot.iter() if isinstance(e.tag, str) and e.get("id")}
         o_by_id = {e.get("id"): e for e in oroot.iter() if isinstance(e.tag, str) and e.get("id")}
-        viewport = [0, 0, 100, 100]
+        viewport = [float(v) for v in re.split(r"[\s,]+", sroot.get("viewBox").strip())]
         obs = []
         for sid, sel in s_by_id.items():
             if not sid.startswith("s"):
                 continue
             oel = o_by_id.get(sid)
+            ctm = ancestors_ctm(spec, sel)
+            det = ctm[0] * ctm[3] - ctm[1] * ctm[2]
+            if h.is_true(h.le(h.abs(det), 2.220446049250313e-16)):
+                h.tag("singular-ctm")
+                continue  # (numerically) singular transform: the shape collapses, nothing to colour
             if not h.check(oel is not None, "shape_survives", detail=sid):
                 continue
             m_fill = re.match(r"url\(#([^)]+)\)", oel.get("fill") or "")
@@ -205,14 +239,15 @@ def make_harness(template):
                 h.check(False, "oracle_unsupported", detail=str(e))
                 continue
             bb = (spec.num(sel.get("x")), spec.num(sel.get("y")), spec.num(sel.get("width")), spec.num(sel.get("height")))
-            ctm = ancestors_ctm(spec, sel)
             m_src = spec.mul(ctm, spec.mul(bbox_matrix(bb), sG) if su == "objectBoundingBox" else sG)
             # output path: geometry already transformed, no transform attribute may remain
             h.check(oel.get("transform") is None, "output_path_has_no_transform")
             if ou == "objectBoundingBox":
                 # bounding box of the OUTPUT geometry = CTM image of the source box; only an
                 # axis-aligned image keeps being a box: require an untransformed shape
-                if not h.check(all(isinstance(v, (int, float)) and v == w for v, w in zip(ctm, spec.I)), "objectBoundingBox_kept_only_for_untransformed_shapes"):
+                ident = h.and_(*[h.eq(v, w) for v, w in zip(ctm, spec.I)])
+                if not h.is_true(ident):
+                    h.check(False, "objectBoundingBox_kept_only_for_untransformed_shapes")
                     continue
                 m_out = spec.mul(bbox_matrix(bb), oG)
             else:
@@ -286,7 +321,7 @@ def harness_for(case):
 
 
 def run_case(case, tier):
-    return run_template_case(harness_for(case), tier, opts={"nlsat_ms": 15000}, max_paths=400)
+    return run_template_case(harness_for(case), tier, opts={"nlsat_ms": 15000, "tol_cut": True}, max_paths=400)
 
 
 def finding_key(case, failure):
@@ -309,7 +344,7 @@ def describe(tier):
             "self-contained (no href, plain numbers, own stops, resolving id, same spreadMethod)."
         ),
         "bounds": {"templates": sorted(templates(tier)), "numbers": "gradient coordinates/radii, gradientTransform entries, ancestor transforms, rect position and size (w,h>0): all reals; viewBox fixed 0 0 100 100"},
-        "outside": PIPE_OUTSIDE + ["the size of the 6-decimal rounding of gradient parameters (round is the identity here)", "bounding boxes of non-rectangular or clipped/stroked shapes (property scope)", "stop elements' own normalisation"],
+        "outside": PIPE_OUTSIDE + ["the default 1e-9 almost_equal band inside decompose_translation (assumed empty: a translation smaller than 1e-9 is dropped by the code)", "the size of the 6-decimal rounding of gradient parameters (round is the identity here)", "bounding boxes of non-rectangular or clipped/stroked shapes (property scope)", "stop elements' own normalisation"],
         "stubs": common.mods().stubs + FP.CONTRACT,
         "assumptions": FP.CONTRACT + ["floats as reals"],
     }
